@@ -248,7 +248,48 @@ func prepareModule(irModule *ir.Module) (*ir.Module, error) {
 // into the caller's module (CloneModuleForOverrides shares that slice).
 func cloneGlobals(m *ir.Module) *ir.Module {
 	m.GlobalVariables = append([]ir.GlobalVariable(nil), m.GlobalVariables...)
+	// CloneModuleForOverrides copies only the top-level Body slice of each function; the
+	// pre-emission passes (inlining, sroa, mem2reg, dce) rewrite nested blocks in place.
+	for i := range m.Functions {
+		m.Functions[i].Body = cloneBlockDeep(m.Functions[i].Body)
+	}
+	for i := range m.EntryPoints {
+		m.EntryPoints[i].Function.Body = cloneBlockDeep(m.EntryPoints[i].Function.Body)
+	}
 	return m
+}
+
+// cloneBlockDeep copies a statement block together with every nested block.
+func cloneBlockDeep(b ir.Block) ir.Block {
+	if len(b) == 0 {
+		return b
+	}
+	out := make(ir.Block, len(b))
+	copy(out, b)
+	for i := range out {
+		switch k := out[i].Kind.(type) {
+		case ir.StmtBlock:
+			k.Block = cloneBlockDeep(k.Block)
+			out[i].Kind = k
+		case ir.StmtIf:
+			k.Accept = cloneBlockDeep(k.Accept)
+			k.Reject = cloneBlockDeep(k.Reject)
+			out[i].Kind = k
+		case ir.StmtSwitch:
+			cases := make([]ir.SwitchCase, len(k.Cases))
+			copy(cases, k.Cases)
+			for j := range cases {
+				cases[j].Body = cloneBlockDeep(cases[j].Body)
+			}
+			k.Cases = cases
+			out[i].Kind = k
+		case ir.StmtLoop:
+			k.Body = cloneBlockDeep(k.Body)
+			k.Continuing = cloneBlockDeep(k.Continuing)
+			out[i].Kind = k
+		}
+	}
+	return out
 }
 
 // Compile translates a naga IR module to DXIL bytecode wrapped in
